@@ -17,18 +17,19 @@ import (
 //
 // The encoder is encoding/json driven by struct tags; the decoder of content items is hand written.
 // Their agreement is a finite table comparison:
-//   R-kind-cover       every Content implementation's "type" tag (the constant its constructor stores) is a
-//                      case of the content decoder's switch
-//   R-field-cover      the JSON members of each kind (tags, embedded structs flattened like encoding/json
-//                      does) are all read by the decoder of that kind; same for hand-decoded descriptors
-//   R-no-empty-reject  a decoder must not reject (or mis-select on) the empty string for a member whose tag
-//                      has no omitempty: the encoder emits "" for it
-//   R-same-type        results decoded with json.Unmarshal are decoded into the very type the server returns
-//   R-err-carry        each client operation turns a JSON-RPC error answer into a Go error that carries the
-//                      answer's message
-//   R-any-member      an interface{} member of a result is stored as decoded, not narrowed to one Go type
-//   R-fresh-buffer    (shared with C01) a reader loop decodes each message into a buffer of its own
-//   R-unbounded-frames the per-call SSE reader imposes no practical line-length limit
+//
+//	R-kind-cover       every Content implementation's "type" tag (the constant its constructor stores) is a
+//	                   case of the content decoder's switch
+//	R-field-cover      the JSON members of each kind (tags, embedded structs flattened like encoding/json
+//	                   does) are all read by the decoder of that kind; same for hand-decoded descriptors
+//	R-no-empty-reject  a decoder must not reject (or mis-select on) the empty string for a member whose tag
+//	                   has no omitempty: the encoder emits "" for it
+//	R-same-type        results decoded with json.Unmarshal are decoded into the very type the server returns
+//	R-err-carry        each client operation turns a JSON-RPC error answer into a Go error that carries the
+//	                   answer's message
+//	R-any-member      an interface{} member of a result is stored as decoded, not narrowed to one Go type
+//	R-fresh-buffer    (shared with C01) a reader loop decodes each message into a buffer of its own
+//	R-unbounded-frames the per-call SSE reader imposes no practical line-length limit
 func init() { Registry["C02"] = checkC02 }
 
 type jsonMember struct {
